@@ -11,6 +11,7 @@ mod refsem;
 mod rewrite;
 mod space;
 mod textmodel;
+mod tokspace;
 mod validate;
 
 use explore::{check_main, replay_main, worker_main, Engine, Tier};
